@@ -6,24 +6,26 @@ From Coq Require Import Permutation.
 From TL Require Import Lib.Base Lib.GenTypes Gen.OrchHistGen Model.OrchHist Model.OrchHistRun Actual.OrchHistActual
      Proofs.OrchHistMain.
 
-Definition w_dirs : list (nat * list nat) := [(0, [0; 1; 2])].
+Definition w_dirs : list (nat * list nat) := [(0, [0; 1; 2; 9])].
+Definition w_ign : list (nat * list nat) := [(0, []); (5, [1])].   (* version 4 of the ignore file (path 9) ignores path 1 *)
 Definition w_fs : fsys := [(0, 0); (1, 1); (2, 2)].
-Definition only_dry : oquirks := Build_oquirks true false false false.
-Definition only_leaves : oquirks := Build_oquirks false true false false.
-Definition only_consts : oquirks := Build_oquirks false false true false.
+Definition only_dry : oquirks := Build_oquirks true false false false false.
+Definition only_leaves : oquirks := Build_oquirks false true false false false.
+Definition only_consts : oquirks := Build_oquirks false false true false false.
+Definition only_reuse : oquirks := Build_oquirks false false false true false.
 
 (* lint the directory, delete a file, lint again: the deleted file's blocks are still reported *)
 Definition w_delete : list op := [ApiLint (TDir 0 [0; 1; 2]); Delete 1; ApiLint (TDir 0 [0; 2])].
 Theorem C08_dry_storage_refuted :
-  sym_run [] [] w_dirs only_dry w_fs w_delete <> sym_fresh_run [] [] w_dirs only_dry w_fs w_delete
-  /\ sym_run [] [] w_dirs orch_actual w_fs w_delete <> sym_fresh_run [] [] w_dirs orch_actual w_fs w_delete.
+  sym_run [] w_ign 9 w_dirs only_dry w_fs w_delete <> sym_fresh_run [] w_ign 9 w_dirs only_dry w_fs w_delete
+  /\ sym_run [] w_ign 9 w_dirs orch_actual w_fs w_delete <> sym_fresh_run [] w_ign 9 w_dirs orch_actual w_fs w_delete.
 Proof. split; vm_compute; discriminate. Qed.
 
 (* Linter.lint(file) / Orchestrator.lint_file leave their evidence behind: the next batch run reports it *)
 Definition w_single : list op := [LintFile 0; LintFiles [1]].
 Theorem C08_lintfile_evidence_refuted :
-  sym_run [] [] w_dirs only_leaves w_fs w_single <> sym_fresh_run [] [] w_dirs only_leaves w_fs w_single
-  /\ sym_run [] [] w_dirs orch_actual w_fs w_single <> sym_fresh_run [] [] w_dirs orch_actual w_fs w_single.
+  sym_run [] w_ign 9 w_dirs only_leaves w_fs w_single <> sym_fresh_run [] w_ign 9 w_dirs only_leaves w_fs w_single
+  /\ sym_run [] w_ign 9 w_dirs orch_actual w_fs w_single <> sym_fresh_run [] w_ign 9 w_dirs orch_actual w_fs w_single.
 Proof. split; vm_compute; discriminate. Qed.
 
 (* the duplicate-constant report sees its evidence in processing order: with reports that are permutation-invariant
@@ -32,7 +34,7 @@ Proof. split; vm_compute; discriminate. Qed.
 Definition w_order_a : list op := [LintFiles [0; 1; 2]].
 Definition w_order_b : list op := [LintFiles [2; 1; 0]].
 Definition run_c (q : oquirks) (h : list op) : list (list tok) :=
-  map out_all (snd (run tok sym_pf (fun _ _ => []) (sym_rep 1) (fun _ => []) (fun _ => false) (fun _ => false) (tbl_in_dir w_dirs) q (init, w_fs) h)).
+  map out_all (snd (run tok sym_pf (fun _ _ => []) (sym_rep 1) (fun _ => []) (fun _ => false) (fun _ _ => false) 9 (tbl_in_dir w_dirs) q (init_st None, w_fs) h)).
 Theorem C08_consts_order_refuted :
   exists a b, run_c only_consts w_order_a = [a] /\ run_c only_consts w_order_b = [b] /\ ~ Permutation a b.
 Proof.
@@ -40,3 +42,12 @@ Proof.
   intros H. apply (Permutation_in (TRep 1 0 [(0, 0); (1, 1); (2, 2)])) in H; [|cbn; tauto].
   cbn in H. repeat destruct H as [H|H]; try discriminate H. exact H.
 Qed.
+
+(* a new Linter built in the same process after the ignore file changed keeps the patterns (and decisions) of the old one:
+   path 1 is ignored by the new version of the ignore file, yet still linted *)
+Definition w_reuse : list op := [ApiLint (TDir 0 [0; 1; 2]); Add 9 4; NewLinter; ApiLint (TDir 0 [0; 1; 2; 9])].
+Theorem C08_ignore_parser_reuse_refuted :
+  hist_synced 9 false w_reuse = true
+  /\ sym_run [] w_ign 9 w_dirs only_reuse w_fs w_reuse <> sym_fresh_run [] w_ign 9 w_dirs only_reuse w_fs w_reuse
+  /\ sym_run [] w_ign 9 w_dirs orch_actual w_fs w_reuse <> sym_fresh_run [] w_ign 9 w_dirs orch_actual w_fs w_reuse.
+Proof. split; [reflexivity|]. split; vm_compute; discriminate. Qed.
